@@ -443,38 +443,60 @@ def log2(n):
 
 
 def j_cost(kind, pre, ln):
-    """C05: comparison counts against logarithmic / linear budgets (the proved bounds are tighter; these are the
-    property's own O() statement with explicit constants)."""
+    """C05: comparison counts against the bounds PROVED for the model in PQ/Props/C05.lean (n = size before the
+    operation, lg = floor(log2)): max-heap push 3lg(n+1), pop/pop_if 2lg n, change_priority/_by/remove 3lg n,
+    push_increase/decrease 3lg(n+1)+1, rebuilds 2n; min-max heap push 8lg(n+1)+8, pop_min/_if 4lg n+4, pop_max 4lg n+5,
+    pop_max_if 7lg n+9, change_priority/_by/remove 8lg n+8, push_increase/decrease 8lg(n+1)+9, rebuilds 7n;
+    peeks and lookups 0, peek_max at most 1."""
     if ln.fault or ln.snap is None or ln.snap.dt is None or pre is None:
         return None
-    n = max(len(pre.map), len(ln.snap.map))
+    n = len(pre.map)
+    m = len(ln.snap.map)
     dt = ln.snap.dt
-    lg = log2(n + 1) + 1
     op = ln.op
-    single = ("push", "push_increase", "push_decrease", "change_priority", "change_priority_by", "remove", "pop",
-              "pop_min", "pop_max", "pop_if", "pop_min_if", "pop_max_if")
-    if op in single:
-        if dt > 8 * lg + 16:
-            return "%s on %d elements performed %d comparisons (budget %d = 8*log2(n)+16)" % (op, n, dt, 8 * lg + 16)
+    pq = kind == "pq"
+    lg = log2
+    c = 2 if pq else 7
+    def pushb(x):
+        return 3 * lg(x + 1) if pq else 8 * lg(x + 1) + 8
+    bound = None
+    if op == "push":
+        bound = pushb(n)
+    elif op in ("push_increase", "push_decrease"):
+        bound = pushb(n) + 1
+    elif op in ("pop", "pop_if"):
+        bound = 2 * lg(n)
+    elif op in ("pop_min", "pop_min_if"):
+        bound = 4 * lg(n) + 4
+    elif op == "pop_max":
+        bound = 4 * lg(n) + 5
+    elif op == "pop_max_if":
+        bound = 7 * lg(n) + 9
+    elif op in ("change_priority", "change_priority_by", "remove"):
+        bound = 3 * lg(n) if pq else 8 * lg(n) + 8
     elif op in ("peek", "peek_min", "len", "is_empty", "get", "get_priority", "get_mut", "peek_mut", "peek_min_mut"):
-        if dt != 0:
-            return "%s performed %d comparisons" % (op, dt)
+        bound = 0
     elif op in ("peek_max", "peek_max_mut"):
-        if dt > 1:
-            return "%s performed %d comparisons" % (op, dt)
-    elif op in ("from_vec", "from_iter", "retain", "retain_mut", "iter_mut", "convert", "deser", "serde_rt"):
-        m = n
-        if op in ("from_vec", "from_iter", "deser"):
-            m = max(n, int(ln.args[0 if op != "from_iter" else 2]))
-        # Floyd: at most 2n (max-heap) / 7n (min-max heap) comparisons; generous linear budget 7n+8
-        if dt > 7 * m + 8:
-            return "%s on %d elements performed %d comparisons (linear budget 7n+8)" % (op, m, dt)
+        bound = 1
+    elif op in ("from_vec", "from_iter", "deser"):
+        bound = c * m
+    elif op in ("retain", "retain_mut", "iter_mut"):
+        bound = c * m
+        if op == "iter_mut" and ln.args and ln.args[0] == "forget":
+            bound = 0
+    elif op == "convert":
+        bound = (7 if pq else 2) * m       # the TARGET kind rebuilds
+    elif op == "serde_rt":
+        bound = (2 if ln.args[0] == "pq" else 7) * m
+    elif op == "extend":
+        es, _ = entries(ln.args, 2)
+        bound = max(c * m, len(es) * (3 * lg(m) if pq else 8 * lg(m) + 8))
     elif op == "append":
         es, _ = entries(ln.args, 0)
-        m = n + len(es)
-        # building the other queue by pushes is part of the measured window: m log m
-        if dt > 16 * m + 32 + len(es) * (8 * (log2(len(es) + 1) + 1) + 16):
-            return "append performed %d comparisons on %d elements" % (dt, m)
+        # the measured window also contains building the other queue by pushes
+        bound = c * m + sum(pushb(j) for j in range(len(es)))
+    if bound is not None and dt > bound:
+        return "%s on %d elements performed %d comparisons; the proved bound is %d" % (op, n, dt, bound)
     return None
 
 
